@@ -370,6 +370,10 @@ func heapSort(name string) string {
 	if strings.HasPrefix(name, "G_held|") {
 		return "(Array Ptr Bool)"
 	}
+	if strings.HasPrefix(name, rangeSeenPrefix) {
+		// R_seen|<key sort>|<range id>: the keys a map range has produced so far
+		return "(Array " + strings.SplitN(strings.TrimPrefix(name, rangeSeenPrefix), "|", 2)[0] + " Bool)"
+	}
 	if strings.HasPrefix(name, "G_") {
 		if gs, ok := ghostHeaps[name[2:]]; ok {
 			return "(Array " + gs[0] + " " + gs[1] + ")"
